@@ -105,6 +105,8 @@ struct Run
     next_op: u16,
     reacting: bool,
     depth: u32,
+    /// an exclusive run that applied something directly mid-body: its parked cleanup ran at that point
+    mid_flushed: bool,
 }
 
 #[derive(Debug, Clone)]
@@ -206,6 +208,10 @@ enum Frame
         required: HashMap<(SysUid, Item), i32>,
         observed: HashMap<(SysUid, Item), i32>,
         n_events: u32,
+        /// per component: the entities of the removal events this poll handles, in the order they happened
+        order: [Vec<u8>; 2],
+        /// per (system, component): index of the removal event its latest reaction belongs to
+        progress: HashMap<(SysUid, u8), usize>,
     },
 }
 
@@ -249,6 +255,8 @@ pub struct Checker
     strict: bool,
     /// system of the run that began last (change samples follow their RunBegin immediately)
     last_begun: Option<SysUid>,
+    /// delivery of an exclusive run whose parked cleanup will run at the next world flush (the next poll)
+    pending_mid_cleanup: Option<u64>,
     /// parent of each pool entity (fixed hierarchy)
     parent: Vec<Option<u8>>,
     /// pool entities whose auto-despawn signal has been dropped: the next garbage collection despawns them
@@ -312,6 +320,7 @@ impl Checker
             in_gc: false,
             strict: true,
             last_begun: None,
+            pending_mid_cleanup: None,
             parent: Vec::new(),
             ent_doomed: HashSet::new(),
             ent_grace: HashSet::new(),
@@ -410,21 +419,21 @@ impl Checker
         if self.has_tracker.contains(&e) { self.dead_unpolled.push(e); }
     }
 
-    /// `despawn_recursive`: the entity and every live descendant.
+    /// `despawn_recursive`: every live descendant, then the entity itself (bevy_hierarchy despawns the children first,
+    /// in `Children` order, so this is also the order of the removal events).
     fn kill_entity_recursive(&mut self, e: u8)
     {
-        let mut all = vec![e];
-        let mut i = 0;
-        while i < all.len()
+        let mut order: Vec<u8> = Vec::new();
+        fn visit(me: &Checker, e: u8, out: &mut Vec<u8>)
         {
-            let p = all[i];
-            for c in 0..self.ent_alive.len()
+            for c in 0..me.ent_alive.len()
             {
-                if self.ent_alive[c] && self.parent.get(c).copied().flatten() == Some(p) && !all.contains(&(c as u8)) { all.push(c as u8); }
+                if me.ent_alive[c] && me.parent.get(c).copied().flatten() == Some(e) && !out.contains(&(c as u8)) { visit(me, c as u8, out); }
             }
-            i += 1;
+            out.push(e);
         }
-        for x in all { self.ent_doomed.remove(&x); self.kill_entity(x); }
+        visit(self, e, &mut order);
+        for x in order { self.ent_doomed.remove(&x); self.kill_entity(x); }
     }
 
     fn record_removal(&mut self, e: u8, c: u8)
@@ -665,6 +674,7 @@ impl Checker
             let stuck: Vec<(SysUid, u8)> = self.queued_despawn.iter().map(|q| (q.0, q.1)).collect();
             self.viol("C09", format!("despawn reactions (system, entity) {:?} were due at a poll of this tree but did not run at any boundary of the tree", stuck));
             self.viol("C08", format!("despawn reactions (system, entity) {:?} were due at a poll of this tree but did not run by its end", stuck));
+            self.viol("C11", format!("despawn reactions (system, entity) {:?} are still waiting to run when the tree's flush returns", stuck));
         }
         if self.tree_had_incident { self.rep.classes.hit("C11:tree_with_incident"); }
         if self.prev_tree_incident { self.rep.classes.hit("C11:tree_after_incident_tree"); }
@@ -695,6 +705,24 @@ impl Checker
                     self.runs.get_mut(&r).unwrap().next_op = idx + 1;
                 }
                 other => self.viol("C09", format!("command {idx} of run {r} applied while run {:?} is innermost", other)),
+            }
+        }
+        if let Sender::Mid(r) = sender
+        {
+            // a direct application from inside the body of exclusive run r: r is innermost and its body has not ended;
+            // the world flush at the start of the runner call runs r's parked cleanup, so r's event is over from here on
+            match self.run_stack.last().copied()
+            {
+                Some(top) if top == r =>
+                {
+                    if self.runs[&r].body_end { self.internal(format!("mid-body op of run {r} after its body ended")); }
+                    self.runs.get_mut(&r).unwrap().mid_flushed = true;
+                    if self.runs[&r].reacting { self.rep.classes.hit("C04:manual_run_applied_inside_reacting_exclusive_body"); }
+                    // the parked cleanup runs at the first world flush of the nested runner call: in its entry poll,
+                    // after its entry collection
+                    self.pending_mid_cleanup = self.runs[&r].delivery;
+                }
+                other => self.internal(format!("mid-body op of run {r} while run {:?} is innermost", other)),
             }
         }
         self.sync_facts(facts, false);
@@ -1049,7 +1077,16 @@ impl Checker
                 if facts.sys.get(*s as usize).copied() == Some(0) && self.alive(*s) { self.kill_system(*s, true); }
                 self.sync_facts(facts, false);
             }
-            (Op::Despawn(Target::Ent(_), _), _) | (Op::Remove(..), _) => self.sync_facts(facts, true),
+            (Op::Despawn(Target::Ent(e), rec), _) =>
+            {
+                let e = *e % (self.ent_alive.len().max(1) as u8);
+                if self.ent_alive[e as usize] && facts.ent.get(e as usize).map(|f| !f.0).unwrap_or(false)
+                {
+                    if *rec { self.kill_entity_recursive(e); } else { self.kill_entity(e); }
+                }
+                self.sync_facts(facts, true);
+            }
+            (Op::Remove(..), _) => self.sync_facts(facts, true),
             (Op::Register{ .. }, Resolved::Register{ sys, .. }) =>
             {
                 self.systems[*sys as usize].ready = true;
@@ -1256,6 +1293,7 @@ impl Checker
                         let msg = format!("the outermost system command of the tree returned while {} had not been polled: their reactions do not run inside the tree", stuck.join(", "));
                         self.viol("C08", msg.clone());
                         self.viol("C09", msg.clone());
+                        self.viol("C11", format!("residue after the tree: {msg}"));
                         self.viol("C02", msg);
                     }
                 }
@@ -1421,9 +1459,27 @@ impl Checker
                     }
                 }
             }
-            Some(Frame::Poll{ observed, .. }) =>
+            Some(Frame::Poll{ observed, order, progress, .. }) =>
             {
                 d.polled = true;
+                // C12: the removals of one component happened in an order; the reactions one system gets for them are
+                // queued in that order (several reactions of one system for one removal are adjacent)
+                if let (HookKind::Removal(c), Some(EntRef::Pool(e)), Some(u)) = (kind, source, uid)
+                {
+                    let list = &order[(c as usize).min(1)];
+                    let from = progress.get(&(u, c)).copied().unwrap_or(0);
+                    match (from..list.len()).find(|j| list[*j] == e)
+                    {
+                        Some(j) => { progress.insert((u, c), j); }
+                        None =>
+                        {
+                            if list.contains(&e)
+                            {
+                                complaint = Some(("C12", format!("poll: system {u} gets the reaction to the removal of component {c} from entity {e} after a reaction to a later removal (removals happened in the order {:?})", list)));
+                            }
+                        }
+                    }
+                }
                 let item = match (kind, source)
                 {
                     (HookKind::Removal(c), Some(e)) => Some(Item::Rem(c, e)),
@@ -1475,9 +1531,18 @@ impl Checker
 
     fn on_poll_begin(&mut self)
     {
+        if let Some(id) = self.pending_mid_cleanup.take()
+        {
+            if let Some(d) = self.deliveries.get_mut(&id)
+            {
+                d.body_done = true;
+                if let Some(a) = d.holds_arc.take() { self.dec_arc(a); }
+            }
+        }
         let mut allowed: HashMap<(SysUid, Item), i32> = HashMap::new();
         let mut required: HashMap<(SysUid, Item), i32> = HashMap::new();
         let mut n_events = 0;
+        let mut order: [Vec<u8>; 2] = [Vec::new(), Vec::new()];
         for c in 0..2u8
         {
             if !self.tracked[c as usize] { continue; }
@@ -1486,6 +1551,7 @@ impl Checker
             {
                 n_events += 1;
                 let e = ev.ent;
+                order[c as usize].push(e);
                 let live = self.matching_regs(|k| match *k {
                     Key::Removal(cc) => cc == c,
                     Key::EntityRemoval(ee, cc) => ee == e && cc == c,
@@ -1519,7 +1585,7 @@ impl Checker
         }
         if n_events >= 2 { self.rep.classes.hit("C08:two_events_in_one_poll"); }
         if n_events >= 1 { self.rep.classes.hit("C08:poll_with_event"); }
-        self.frames.push(Frame::Poll{ allowed, required, observed: HashMap::new(), n_events });
+        self.frames.push(Frame::Poll{ allowed, required, observed: HashMap::new(), n_events, order, progress: HashMap::new() });
     }
 
     fn on_poll_end(&mut self)
@@ -1661,7 +1727,7 @@ impl Checker
         let reacting = !exp.is_empty();
         let depth = self.run_stack.len() as u32 + 1;
         if depth > self.rep.max_depth { self.rep.max_depth = depth; }
-        self.runs.insert(run, Run{ sys, delivery, body_end: anon, flush_end: anon, next_op: 0, reacting, depth });
+        self.runs.insert(run, Run{ sys, delivery, body_end: anon, flush_end: anon, next_op: 0, reacting, depth, mid_flushed: false });
         if anon
         {
             if let Some(id) = delivery { if let Some(d) = self.deliveries.get_mut(&id) { d.body_done = true; } }
@@ -1705,7 +1771,7 @@ impl Checker
         if let (Some(got), Some(id)) = (readings, r.delivery)
         {
             let exp: Vec<Item> = self.deliveries.get(&id).map(|d| d.exp.clone()).unwrap_or_default();
-            let mut want: Vec<Item> = if shape == Shape::Wrong { Vec::new() } else { exp.into_iter().filter(|i| !matches!(i, Item::SysEv(..))).collect() };
+            let mut want: Vec<Item> = if shape == Shape::Wrong || r.mid_flushed { Vec::new() } else { exp.into_iter().filter(|i| !matches!(i, Item::SysEv(..))).collect() };
             want.sort();
             let mut g = got.clone();
             g.sort();
